@@ -34,5 +34,5 @@ echo "== demo with the patch (must fail)"
 rm -f "${demo_files[@]}"
 for c in "$@"; do
   echo "== check $c quick against the patched tree"
-  ( cd /verif && VERIF_REPO="$WT" ./run.sh "$c" quick 2>&1 | grep -E "^(HELD|VIOLATED|BROKEN|BUILD|  violation class|KNOWN)" | cut -c1-240 | head -12 )
+  ( cd /verif && VERIF_REPO="$WT" ./run.sh "$c" quick 2>&1 | grep -aE "^(HELD|VIOLATED|BROKEN|BUILD|  violation class|KNOWN)" | cut -c1-240 | head -12 )
 done
